@@ -41,6 +41,10 @@ Proof. reflexivity. Qed.
 (* ... and an event whose storage write FAILED: isStored is set inside `if err == nil` (repo 38f5a4a3d, finding P-D) *)
 Lemma failed_plog_event_is_not_marked_stored : c05_failed_plog_marks_stored = false.
 Proof. reflexivity. Qed.
+(* the re-applier writes its WLog entry with a direct storage.Put: the trust level - a field of the app structs that
+   all partitions of the application share - is assigned at construction only *)
+Lemma reapplier_wlog_is_a_direct_put : c05_reapply_wlog_raises_level = false.
+Proof. reflexivity. Qed.
 Lemma update_rows_are_never_new : c05_update_inherits_isnew = false.
 Proof. reflexivity. Qed.
 
@@ -182,7 +186,8 @@ Proof. exact (apply_frame_proved inserted_rows_never_expire). Qed.
 Theorem agrees_implies_satisfies :
   forall (stamp : V -> N) (veqb : V -> V -> bool), (forall a b, veqb a b = true <-> a = b) ->
   forall t : gtrace V,
-  (c05_update_inherits_isnew = false /\ c05_refused_plog_marks_stored = false /\ c05_failed_plog_marks_stored = false)
+  (c05_update_inherits_isnew = false /\ c05_refused_plog_marks_stored = false /\ c05_failed_plog_marks_stored = false
+   /\ c05_reapply_wlog_raises_level = false)
   \/ gclean t = true ->
   gagrees stamp veqb t = true -> gsatisfies stamp veqb t = true.
 Proof.
@@ -192,7 +197,7 @@ Proof.
 Qed.
 
 (* For the code as it is (side conditions update_rows_are_never_new, refused_plog_event_is_not_marked_stored,
-   failed_plog_event_is_not_marked_stored) the link holds for every trace. *)
+   failed_plog_event_is_not_marked_stored, reapplier_wlog_is_a_direct_put) the link holds for every trace. *)
 Theorem agrees_implies_satisfies_full :
   forall (stamp : V -> N) (veqb : V -> V -> bool), (forall a b, veqb a b = true <-> a = b) ->
   forall t : gtrace V,
@@ -200,8 +205,16 @@ Theorem agrees_implies_satisfies_full :
 Proof.
   exact (fun stamp veqb veqb_eq t =>
     agrees_implies_satisfies stamp veqb veqb_eq t
-      (or_introl (conj update_rows_are_never_new (conj refused_plog_event_is_not_marked_stored failed_plog_event_is_not_marked_stored)))).
+      (or_introl (conj update_rows_are_never_new (conj refused_plog_event_is_not_marked_stored
+        (conj failed_plog_event_is_not_marked_stored reapplier_wlog_is_a_direct_put))))).
 Qed.
+
+(* A step issued while a re-applier's WLog write is in flight (s_mode 4), or after two such writes overlapped
+   (s_mode 5), runs at the configured trust level like any other: re-apply does not open a window for the other
+   partitions of the application (seed c05-8: PutWlog under a raised shared level). *)
+Theorem reapply_opens_no_window :
+  forall trust m, eff_trust trust m = trust.
+Proof. exact (eff_trust_id reapplier_wlog_is_a_direct_put). Qed.
 
 (* "Only ... explicit re-apply during recovery may overwrite": an event object whose PutPlog was refused with
    SequencesViolation is not in the log and is not accepted by GetEventReapplier - the step answers with the
@@ -254,6 +267,15 @@ Example failed_event_reappliable_refuted :
     run_step 0 0%Z st s = Some (st', ROk, cs) /\
     get 0%Z st [1] [2] = Some 7 /\ get 0%Z st' [1] [2] = Some 8.
 Proof. exact failed_event_reappliable_refuted_proved. Qed.
+
+(* seed c05-8 as a witness over the raised-level shape *)
+Example window_raises_level_refuted :
+  c05_reapply_wlog_raises_level = true ->
+  exists (st st' : store N) (s : step N) cs,
+    s_mode s = 4 /\ s_kind s = KPlog /\
+    run_step 0 0%Z st s = Some (st', ROk, cs) /\
+    get 0%Z st [1] [2] = Some 7 /\ get 0%Z st' [1] [2] = Some 8.
+Proof. exact window_raises_level_refuted_proved. Qed.
 
 (* ---- non-vacuity ---- *)
 Definition ex_store : store N := put (put [] [0; 3] [0; 10] 70) [0; 4; 9] [0; 1] 50.
@@ -335,6 +357,8 @@ Print Assumptions updates_always_succeed_when_flag_reset.
 Print Assumptions updates_always_succeed.
 Print Assumptions agrees_implies_satisfies_full.
 Print Assumptions refused_event_is_not_reappliable.
+Print Assumptions reapply_opens_no_window.
+Print Assumptions window_raises_level_refuted.
 Print Assumptions failed_event_is_not_reappliable.
 Print Assumptions failed_event_reappliable_refuted.
 Print Assumptions updates_succeed_full_refuted.
